@@ -49,6 +49,42 @@ _history = dict(last_file_region=None, last_sky=None, off_sky_inside=0)
 
 
 # ------------------------------------------------------------------------------------------------
+# every call into AegeanTools made while a case is being BUILT is guarded: an exception raised by the code under
+# test on a valid input is a `spec` failure carrying the (re-creatable) case, never a crash of the harness
+
+GENERATORS = {}
+
+
+def gen_guard(fn):
+    """wrap a case generator gen(rng, *args): if it raises (the generators call WCSHelper / Region / sky_within of the
+    tree under test to evaluate the oracle), return a record from which the replay can re-create the attempt"""
+    import functools
+    import traceback
+
+    @functools.wraps(fn)
+    def wrapped(rng, *args):
+        state = rng.bit_generator.state
+        try:
+            return fn(rng, *args)
+        except Exception as e:
+            frames = [f for f in traceback.extract_tb(e.__traceback__) if 'AegeanTools' in f.filename]
+            site = (f"{os.path.basename(frames[-1].filename)}:{frames[-1].name}" if frames else 'harness')
+            return dict(kind='generator-raised', generator=fn.__name__, args=[int(a) for a in args], rng_state=state,
+                        error=f"{type(e).__name__}: {e}", raised_in=site,
+                        trace=[f"{os.path.basename(f.filename)}:{f.lineno}:{f.name}" for f in traceback.extract_tb(e.__traceback__)][-6:])
+    GENERATORS[fn.__name__] = wrapped
+    return wrapped
+
+
+def report_generator_raise(ctx, c):
+    ctx.fail('spec', c, f"{c['raised_in']} raised {c['error']} while the oracle for a valid case was being evaluated "
+             f"(generator {c['generator']}{tuple(c['args'])}; call chain {' > '.join(c['trace'])})",
+             dict(site=c['raised_in'], clause='raises', region=True, generator=c['generator']))
+    ctx.count('generator-raised')
+    ctx.case(dict(kind='generator-raised', generator=c['generator']))
+
+
+# ------------------------------------------------------------------------------------------------
 # table stream: exact, arbitrary inside-patterns
 
 
@@ -310,6 +346,7 @@ def header_from_vals(vals):
     return h
 
 
+@gen_guard
 def gen_sky_case(rng):
     from AegeanTools.wcs_helpers import WCSHelper
     kind = ['bars', 'lshape', 'random', 'inbox', 'diag'][rng.integers(0, 5)]
@@ -364,6 +401,7 @@ def finish_sky_case(kind, im, vals, spec, wcs, extra):
                                         off_sky_inside=_history['off_sky_inside']), **extra))
 
 
+@gen_guard
 def gen_big_island_case(rng, k=0):
     """an extended island of more than 1000 pixels with a TINY region (a small disc of depth-13..15 cells) sitting on
     its peak, well inside its outline: the island has own pixels inside the region and must be kept; a second
@@ -388,6 +426,7 @@ def gen_big_island_case(rng, k=0):
                            dict(region_kind='tiny-on-peak' if on_peak else 'tiny-off-island'))
 
 
+@gen_guard
 def gen_limb_case(rng, k=0):
     """hemispheric SIN / all-sky AIT images: pixels beyond the limb have finite data but NO sky position.  One island
     spills over the limb far from the pole (no on-sky pixel in the region: must be dropped), one sits on the pole
@@ -423,6 +462,7 @@ def gen_limb_case(rng, k=0):
     return finish_sky_case('limb', im, vals, spec, wcs, dict(region_kind='polar-cap-' + proj))
 
 
+@gen_guard
 def gen_sip_case(rng, k=0):
     """alternative standard header spelling: TAN-SIP with a quadratic distortion of 1-3 pixels across the image.
     The sky position of a pixel centre is the FULL transformation (all_pix2world), which is what the rest of Aegean
@@ -485,6 +525,10 @@ def c11_nontrivial(c):
 
 
 def evaluate(ctx, cases, use_lean=True):
+    for c in cases:
+        if c.get('kind') == 'generator-raised':
+            report_generator_raise(ctx, c)
+    cases = [c for c in cases if c.get('kind') != 'generator-raised']
     lines = [base.request_line(c) for c in cases] if use_lean else None
     outs = base.lean_batch(ctx, lines) if use_lean else [None] * len(cases)
     for c, o in zip(cases, outs):
@@ -598,6 +642,12 @@ def replay(ctx, rec):
     if c.get('finder'):
         finder_region_one(ctx, c)
         return
+    if c.get('kind') == 'generator-raised':        # re-create the attempt from the recorded generator state
+        rng = np.random.default_rng()
+        rng.bit_generator.state = c['rng_state']
+        c = GENERATORS[c['generator']](rng, *c['args'])
+        if c is None:
+            return
     evaluate(ctx, [c], use_lean=ctx.driver_ok)
 
 
@@ -680,7 +730,14 @@ def finder_region_one(ctx, c):
 
     class _W(object):
         wcs = w
-    ins, stable = oracle_inside(_W, reg, im.shape[0], im.shape[1])
+    try:
+        ins, stable = oracle_inside(_W, reg, im.shape[0], im.shape[1])
+    except Exception as e:
+        ctx.fail('spec', dict(c, pretty=base.pretty(c)),
+                 f"Region.sky_within raised {type(e).__name__}: {e} on the pixel centres of the image (region maxdepth {c['region']['depth']})",
+                 dict(site='Region.sky_within', clause='raises', region=True, depth=c['region']['depth']))
+        ctx.count('finder-region-run')
+        return True
     if not stable:
         ctx.count('ambiguous-skipped')
         return
